@@ -486,10 +486,10 @@ Proof.
 Qed.
 
 (** ** serialize_unit_variant: a variant named after the union's null branch selects it *)
-Lemma unit_variant_null_sound variant (by_type : M unit) n st st' :
+Lemma unit_variant_null_sound ename variant (by_type : M unit) n st st' :
   (forall st st', G slow st -> by_type st = (Ok tt, st') -> snd_at n st st') ->
   node_lim n = true -> G slow st ->
-  unit_variant_null Sc n variant by_type st = (Ok tt, st') -> snd_at n st st'.
+  unit_variant_null Sc n ename variant by_type st = (Ok tt, st') -> snd_at n st st'.
 Proof.
   intros Hby Hn Hg E. unfold unit_variant_null in E.
   destruct n; try (eapply Hby; eauto; fail).
@@ -1442,7 +1442,7 @@ Proof.
     apply inv_sret in E as (_ & ->). exists []. split; [apply valid_null|rewrite app_nil_r; reflexivity].
   - (* SUnitVariant *)
     change (ser Sc n0 (SUnitVariant e i v)) with
-      (unit_variant_null Sc n0 v
+      (unit_variant_null Sc n0 e v
         (via_union Sc n0 KUnitVariant (fun n' =>
            match n' with
            | FNull => if bytes_eqb v NULLNAME then sret tt else fail (Err EData)
